@@ -35,6 +35,25 @@ type Facts struct {
 
 var fset = token.NewFileSet()
 
+// functions whose closures' return statements are recorded (exit paths of the actor closures)
+var wantReturns = map[string]bool{
+	"internal/controller/controller.go:DefaultFanController.Run": true,
+}
+
+// inFuncLit reports whether node n lies inside a function literal within body
+func inFuncLit(body ast.Node, n ast.Node) bool {
+	found := false
+	ast.Inspect(body, func(m ast.Node) bool {
+		if fl, ok := m.(*ast.FuncLit); ok {
+			if fl.Pos() <= n.Pos() && n.End() <= fl.End() {
+				found = true
+			}
+		}
+		return !found
+	})
+	return found
+}
+
 func exprString(e ast.Expr) string {
 	var sb strings.Builder
 	_ = printer.Fprint(&sb, fset, e)
@@ -297,6 +316,14 @@ func main() {
 				case *ast.ForStmt, *ast.RangeStmt:
 					out = append(out, "loop{")
 					// children are visited next; the closing marker is added by position below
+				case *ast.FuncLit:
+					if wantReturns[key] {
+						out = append(out, "func{")
+					}
+				case *ast.ReturnStmt:
+					if wantReturns[key] && inFuncLit(fd.Body, s) {
+						out = append(out, "return")
+					}
 				}
 				return true
 			})
@@ -307,6 +334,7 @@ func main() {
 			facts.Sequences[key] = []string{}
 		}
 	}
+	_ = wantReturns
 	lockish := func(n string) string {
 		switch {
 		case n == "InitializationSequenceMutex.Lock":
